@@ -295,6 +295,46 @@ def rule_r7(ctx):
     numconv.check(ctx, r, fns, 1)
 
 
+def rule_r8(ctx):
+    r = ctx.rule("C19.R8", "T1", "nng_url_sprintf: whether the host is wrapped in [ ] depends on the host alone -- the stores of the "
+                 "brackets are controlled only by tests of the host name, never by whether a port is printed (an IPv6 literal "
+                 "without brackets is refused by nng_url_parse, so the output would not parse back)", floor=2)
+    f = ctx.prog.need("nng_url_sprintf", "core/url.c")
+    hostvars = {"u_hostname"}
+    for t in f.sites():
+        if t.node.get("k") == "decls":
+            for d in t.node["d"]:
+                e = f.expand(d["init"]) if d.get("init") is not None else None
+                if e is not None and e.get("k") == "mem" and e.get("f") == "u_hostname":
+                    hostvars.add(d["n"])
+    stores = [t for t in f.assigns() if t.node["lhs"].get("k") == "var" and (lambda e: e is not None and e.get("k") == "str" and e.get("v") in ("[", "]"))(f.expand(t.node["rhs"]))]
+    G.need_sites(stores, "bracket stores", f)
+    facts = G.edge_facts(f)
+    names = {t.node["lhs"]["n"] for t in stores}
+    emit = [c for c in f.calls("snprintf") if any((lambda a: a is not None and a.get("k") == "var" and a["n"] in names)(f.expand(a))
+                                                  for a in c.node["args"] if a is not None)]
+    G.need_sites(emit, "snprintf that prints the brackets", f)
+    for t in stores:
+        foreign = None
+        own = False
+        for bid, k, atom, val in facts:
+            if not G.dominated(f, (t.b, t.i), {bid: k}):
+                continue
+            if all(G.dominated(f, (c.b, c.i), {bid: k}) for c in emit):
+                continue      # a condition of the whole output form (scheme without authority), not of the brackets
+            about_host = any((m.get("k") == "var" and m["n"] in hostvars) or (m.get("k") == "mem" and m.get("f") in hostvars) for m in walk(atom))
+            if about_host:
+                own = True
+            else:
+                foreign = (bid, atom)
+        if foreign is not None or not own:
+            ctx.fail(r, f, "bracket %s depends on %s" % (show(t.node["rhs"]), show(foreign[1]) if foreign else "nothing"), t.line,
+                     "the store %s at line %s is made only when %s: for other URLs an IPv6 literal host is printed without "
+                     "brackets and nng_url_parse refuses the result" % (show(t.node), t.line, show(foreign[1]) if foreign else "(no test of the host)"))
+        else:
+            r.ob(f, "%s line %s: controlled by tests of the host only" % (show(t.node), t.line))
+
+
 def run(ctx):
     ctx.guard(rule_r1)
     ctx.guard(rule_r2)
@@ -302,3 +342,4 @@ def run(ctx):
     ctx.guard(rule_r5)
     ctx.guard(rule_r6)
     ctx.guard(rule_r7)
+    ctx.guard(rule_r8)
